@@ -6,21 +6,30 @@ from .c01 import handles_ok, fix_disagreements
 MODULES = ['DsdVerif.Props.C04']
 GEN_FILES = ['PyExprs']
 THEOREM_NAMES = ['domwf_init', 'domwf_request', 'domwf_drop', 'domwf_invert', 'complement_lengths_agree', 'conflict_raises',
-                 'invert_involutive', 'dtype_rule', 'dtype_default_lengths', 'dtype_length_contradiction']
+                 'invert_involutive', 'dtype_rule', 'dtype_default_lengths', 'dtype_length_contradiction',
+                 # the full model of DomainS.identifiers with its nested requests and temporary objects (Model/DomainFull.lean)
+                 'domainRequestFullT_eq', 'domainRequestFull_eq', 'domainRequestFull_eq_of_lt', 'no_trace_of_temporaries', 'no_trace_objs',
+                 'domwf_requestFull']
 THEOREMS = ['Dsd.C04.' + t for t in THEOREM_NAMES] + ['Dsd.PyExprs.py_dtype_eq_model']
 ASSUMPTIONS = [
     'DomainS.identifiers is hand-modelled by its net effect (Model/Objects.lean: domainRequest); the temporary complement objects it '
-    'creates and drops are not modelled; lengths are positive integers (length 0 is falsy in the guard and outside the reading)',
+    'creates and drops are modelled separately (Model/DomainFull.lean) and proved to have this net effect (Props/C04Full.lean)',
     'class settings (cutoff, default lengths, prefix, ID) are parameters of the model and are set on the real class by the harness',
 ]
 MANIFEST = {
     'text': 'Full for the model: complement_lengths_agree is an invariant over all histories of requests / look-ups / complements / '
             'drops (no reachable registry holds x and x* with different lengths), conflict_raises in both orders, invert_involutive '
             '(~~d is d; ~d has the toggled name and the same length and is the registered object of that name), dtype_rule, '
-            'dtype_default_lengths, dtype_length_contradiction; for every name, length, dtype and class setting. Tied to DomainS by '
+            'dtype_default_lengths, dtype_length_contradiction; for every name, length (0 included since the repair 81557a1), dtype and class '
+            'setting. The net-effect model these theorems are about is itself proved to be what the code does step by step: '
+            'Model/DomainFull.lean follows DomainS.identifiers and Singleton.__call__ statement by statement - nested requests, '
+            'try/except SingletonError shapes, temporary complement objects that are registered and die - and domainRequestFull_eq shows '
+            'the same outcome, the same registry and the same ID counter for every request (names with at most one trailing star); '
+            'no_trace_of_temporaries: nothing but the returned object is ever added. Kernel-checked differences outside that range '
+            '(a double star, the name "*") are kept as findings in Props/C04Full.lean. Tied to DomainS by '
             'exhaustive histories over names {a, a*, auto}, lengths, dtypes and three class-setting variants plus random histories; '
             'the invariant is also checked directly on the real registry after every step.',
-    'note': 'DomainS.dtype is translated from the source on every run and proved equal to the model\'s dtypeOf (py_dtype_eq_model). Transient complement domains inside identifiers() are not modelled; positive lengths only; trusted base as in DESIGN.md 3.',
+    'note': 'DomainS.dtype is translated from the source on every run and proved equal to the model\'s dtypeOf (py_dtype_eq_model). trusted base as in DESIGN.md 3.',
     'technique': 'Lean 4 invariant proof over histories of the domain registry; correspondence check on histories',
 }
 
@@ -35,6 +44,8 @@ def alphabet():
                 ops.append('mk.dom\t0\t%s\t%s\t-\t%s' % (name, ln, dt))
     # the complement of the NEXT automatic name (prefix d, ID 1) declared explicitly, with either length
     ops += ['mk.dom\t0\td1*\t5\t-\t-', 'mk.dom\t0\td1*\t9\t-\t-', 'mk.dom\t0\td1\t-\t-\tlong']
+    # length 0: a degenerate but accepted length; the complement rule applies to it like to any other length
+    ops += ['mk.dom\t0\ta*\t0\t-\t-', 'mk.dom\t0\ta\t0\t-\t-']
     # keywords passed explicitly as None (what a forwarding wrapper does): the same requests as with the keyword omitted
     ops += ['mk.dom\t0\ta*\tN\t-\tN', 'mk.dom\t0\ta\tN\t-\t-', 'mk.dom\t0\ta*\tN\t-\tshort']
     ops += ['inv\th0', 'inv\th1', 'drop\th0', 'drop\th1']
